@@ -45,10 +45,14 @@ struct SlowPass {
     #[rustradio(out)]
     dst: rustradio::stream::WriteStream<Big>,
     ms: u64,
+    /// at most this many samples per call (0: no limit): a reader that drains in small pieces
+    max: usize,
 }
 impl Block for SlowPass {
     fn work(&mut self) -> Result<BlockRet> {
-        std::thread::sleep(std::time::Duration::from_millis(self.ms));
+        if self.ms > 0 {
+            std::thread::sleep(std::time::Duration::from_millis(self.ms));
+        }
         let (i, _) = self.src.read_buf()?;
         if i.is_empty() {
             return Ok(BlockRet::WaitForStream(&self.src, 1));
@@ -57,7 +61,7 @@ impl Block for SlowPass {
         if o.is_empty() {
             return Ok(BlockRet::WaitForStream(&self.dst, 1));
         }
-        let n = i.len().min(o.len());
+        let n = i.len().min(o.len()).min(if self.max == 0 { usize::MAX } else { self.max });
         o.fill_from_slice(&i.slice()[..n]);
         o.produce(n, &[]);
         i.consume(n);
@@ -235,7 +239,7 @@ fn build(desc: &Value) -> std::result::Result<Built, String> {
                 one!(b, Port::Big(o))
             }
             ("slow", Some(Port::Big(r)), None) => {
-                let (b, o) = SlowPass::new(r, pu(n, "ms", 3));
+                let (b, o) = SlowPass::new(r, pu(n, "ms", 3), pu(n, "max", 0) as usize);
                 one!(b, Port::Big(o))
             }
             ("addconst", Some(Port::Big(r)), None) => {
